@@ -666,7 +666,15 @@ class Run:
             print("KNOWN-FINDING: property=%s %s" % (self.id, what))
         self.cov["known_findings_matched"] = sorted(self.known_hit)
         rc = 0
-        for i, v in enumerate(self.violations):
+        # at most 40 replay files / VIOLATION lines per run (concrete inputs first); the total is in the evidence
+        MAXV = 40
+        if len(self.violations) > MAXV:
+            self.cov["violations_not_listed"] = len(self.violations) - MAXV
+            ordered = [v for v in self.violations if not v["no_input"]] + [v for v in self.violations if v["no_input"]]
+            shown = ordered[:MAXV]
+        else:
+            shown = self.violations
+        for i, v in enumerate(shown):
             path = os.path.join(REPLAY, "%s-%d.case" % (self.id, i))
             with open(path, "w") as f:
                 f.write("property: %s\ntier: %s\nseed: %d\nkey: %s\nwhat: %s\nrepo_hash: %s\n---\n%s\n" % (
